@@ -205,10 +205,11 @@ impl Field {
 
                 // The value comes out of its chunk with the narrowest type that fits the
                 // field: widen it explicitly, assigning a byte or short to the int that
-                // holds a size or count would sign-extend.
+                // holds a size or count would sign-extend. It may be a masked expression
+                // (`chunk0 & 0xffffff`): parenthesize it before the modifier is subtracted.
                 let t = ExprTree::new();
                 t.gen_expr(t.sub(
-                    t.cast(t.symbol(quote!($expr), Integral::fitting(*width)), *ty),
+                    t.cast(t.symbol(quote!(($expr)), Integral::fitting(*width)), *ty),
                     t.num(width_fields.get(arr_name).unwrap().modifier().unwrap_or(0)),
                 ))
             }
